@@ -532,6 +532,12 @@ def run_replay(desc, contract, clause_name=None):
             fbody = ftree.body[0].body
             idx = [i for i, st in enumerate(fbody) if ast.unparse(st).replace('"', "'").startswith(frag["after"].replace('"', "'"))]
             hits = [ast.For(target=None, iter=None, body=fbody[idx[0] + 1:], orelse=[])]
+        elif "before" in frag:
+            fbody = ftree.body[0].body
+            idx = [i for i, st in enumerate(fbody) if ast.unparse(st).replace('"', "'").startswith(frag["before"].replace('"', "'"))]
+            hits = [ast.For(target=None, iter=None, body=[st for st in fbody[: idx[0]] if not (isinstance(st, ast.Expr) and isinstance(st.value, ast.Constant))], orelse=[])]
+        elif "iter" not in frag:
+            hits = [n for n in ast.walk(ftree) if isinstance(n, ast.For)]
         else:
             hits = [n for n in ast.walk(ftree) if isinstance(n, ast.For) and ast.unparse(n.iter).replace('"', "'") == frag["iter"].replace('"', "'")]
         if frag.get("body_contains"):
@@ -541,8 +547,13 @@ def run_replay(desc, contract, clause_name=None):
         fenv = dict(vars(mod))
         fenv.update({k: v for k, v in env.items() if k != "__module__"})
 
+        assigned = {x.id for st in hits[0].body for x in ast.walk(st) if isinstance(x, ast.Name) and isinstance(x.ctx, ast.Store)}
+
         def call():
-            exec(code, fenv)
+            try:
+                exec(code, fenv)
+            finally:
+                env.update({k: fenv[k] for k in assigned if k in fenv})  # locals the fragment binds are visible to the clauses
 
     elif "." in rest:
         cls, meth = rest.split(".", 1)
